@@ -591,6 +591,20 @@ class Unit:
                     raise AnchorLost('body substitution anchor not found in %s: %s' % (name, a))
                 b = b.replace(a, c)
                 self.rw.hit('Wsub')
+        # `resub=`: the same as `sub=` with a regular expression on the left (`$1`.. on the right refer to its groups); the
+        # alternatives are tried in turn, at least ONE of them has to match (W20 uses it: which ghost counter a `fetch_add`
+        # is given depends on the atomic it is called on)
+        if kw.get('resub'):
+            total = 0
+            for sub in kw['resub'].split(';;'):
+                if '=>' in sub:
+                    a, c = sub.split('=>', 1)
+                    c = re.sub(r'\$(\d)', r'\\\1', c)
+                    b, n = re.subn(a, c, b)
+                    total += n
+                    self.rw.hit('Wresub', n)
+            if total == 0:
+                raise AnchorLost('body substitution anchor not found in %s: none of %s' % (name, kw['resub']))
         # --- contract block: split into clauses / inv / at ---
         clauses, invs, ats, afters, blockends, afteropens = [], [], [], [], [], []
         optional_invs = set()
